@@ -10,6 +10,7 @@
 -/
 import KmipModel.Lemmas.FixpointLemmas
 import KmipModel.Props.C18Typed
+import KmipModel.Lemmas.FixpointCross
 import KmipModel.Props.C04
 namespace Kmip.C18
 open Kmip
@@ -266,6 +267,104 @@ theorem old_date_fixpoint_false :
     `TTLV tag=` for a named tag) is ACCEPTED, so the hypothesis of `xml_fixpoint_generic` holds of it. -/
 example : C04.isOk (Kmip.Lex.xmlRead C04.genTables C04.toyR Kmip.Lex.noHints C04.altXml) = true := by
   decide +kernel
+
+/-! ### between the binary and the text encodings (generic layer)
+
+"The same holds through each of the two other encodings whenever the decoded text strings are
+representable there and the dates lie in years 1 to 9999." At the element layer text strings are byte
+sequences (which of them survive the escaper/tokeniser pairs of encoding/xml and encoding/json is outside
+the model); the date condition is `Item.DatesIn R` (every date passes the readers' own year test
+`R.inYears`); the only other condition is a size one in the text → binary direction, `Item.Fits`: the
+text formats bound neither the length of a string nor the size of a big integer, the binary format has
+32-bit length fields. `Item.lift` is the annotated tree of the generic text codecs (`noHints`). -/
+
+open Kmip.Reg Kmip.Lex in
+/-- XML → binary: the tree the XML reader returns (any hints: generic or typed caller), once its
+    annotations are erased — which is what the binary encoder sees —, is read back by the binary decoder
+    from its binary encoding. -/
+theorem xml_to_binary {T : Tables} (hB : T.Bounded) {R : Rfc3339} {H : Hints} (e : XElem) (t : XItem)
+    (h : xmlRead T R H e = .ok t) (hf : t.erase.Fits) : unmarshalValue (enc t.erase) = .ok t.erase :=
+  unmarshalValue_enc0 _ (XItem.erase_inRange0 t (C04.xml_read_representable hB e t h) hf)
+
+open Kmip.Reg Kmip.Lex in
+/-- JSON → binary. -/
+theorem json_to_binary {T : Tables} (hB : T.Bounded) {R : Rfc3339} (hR : R.Lawful) {H : Hints} (j : JVal)
+    (t : XItem) (h : jsonRead T R H j = .ok t) (hf : t.erase.Fits) :
+    unmarshalValue (enc t.erase) = .ok t.erase :=
+  unmarshalValue_enc0 _ (XItem.erase_inRange0 t (C04.json_read_representable hB hR j t h) hf)
+
+open Kmip.Reg Kmip.Lex in
+/-- binary → XML and binary → JSON: the tree the binary decoder returns for ANY accepted byte string,
+    when its dates can be written, is read back from its XML and from its JSON encoding; and erasing the
+    annotations of the text tree gives the binary tree back. -/
+theorem binary_to_text {T : Tables} (hT : T.WF) {R : Rfc3339} (hR : R.Lawful) (bs : Bytes) (t : Item)
+    (hlen : bs.length < 2 ^ 32) (h : unmarshalValue bs = .ok t) (hd : t.DatesIn R) :
+    xmlRead T R noHints (xmlWrite T R t.lift) = .ok t.lift ∧
+      jsonRead T R noHints (jsonWrite T R t.lift) = .ok t.lift ∧ t.lift.erase = t :=
+  have hr := Item.lift_rep0 t (decoded_in_range bs t hlen h) hd
+  ⟨C04.xml_roundtrip0 hT hR t.lift hr, C04.json_roundtrip0 hT hR t.lift hr, Item.erase_lift t⟩
+
+open Kmip.Reg Kmip.Lex in
+/-- binary → XML → JSON → binary (and, the two text hops being symmetric, binary → JSON → XML → binary):
+    every hop is accepted and the chain ends on the tree it started from, hence on the same bytes `enc t`. -/
+theorem binary_xml_json_binary {T : Tables} (hT : T.WF) {R : Rfc3339} (hR : R.Lawful) (bs : Bytes) (t : Item)
+    (hlen : bs.length < 2 ^ 32) (h : unmarshalValue bs = .ok t) (hd : t.DatesIn R) :
+    ∃ x, xmlRead T R noHints (xmlWrite T R t.lift) = .ok x ∧
+      ∃ j, jsonRead T R noHints (jsonWrite T R x) = .ok j ∧ unmarshalValue (enc j.erase) = .ok t := by
+  obtain ⟨hx, hj, he⟩ := binary_to_text hT hR bs t hlen h hd
+  refine ⟨t.lift, hx, t.lift, hj, ?_⟩
+  rw [he]
+  exact decode_reencode_fixpoint bs t hlen h
+
+open Kmip.Reg Kmip.Lex in
+theorem binary_json_xml_binary {T : Tables} (hT : T.WF) {R : Rfc3339} (hR : R.Lawful) (bs : Bytes) (t : Item)
+    (hlen : bs.length < 2 ^ 32) (h : unmarshalValue bs = .ok t) (hd : t.DatesIn R) :
+    ∃ j, jsonRead T R noHints (jsonWrite T R t.lift) = .ok j ∧
+      ∃ x, xmlRead T R noHints (xmlWrite T R j) = .ok x ∧ unmarshalValue (enc x.erase) = .ok t := by
+  obtain ⟨hx, hj, he⟩ := binary_to_text hT hR bs t hlen h hd
+  refine ⟨t.lift, hj, t.lift, hx, ?_⟩
+  rw [he]
+  exact decode_reencode_fixpoint bs t hlen h
+
+open Kmip.Reg Kmip.Lex in
+/-- XML → binary → JSON → XML for the generic decoder: the binary hop loses nothing (`lift ∘ erase` is the
+    identity on what the generic text readers return), so the chain ends on the tree it started from. -/
+theorem xml_binary_json_xml {T : Tables} (hT : T.WF) (hB : T.Bounded) {R : Rfc3339} (hR : R.Lawful)
+    (e : XElem) (t : XItem) (h : xmlRead T R noHints e = .ok t) (hf : t.erase.Fits) :
+    ∃ b, unmarshalValue (enc t.erase) = .ok b ∧
+      ∃ j, jsonRead T R noHints (jsonWrite T R b.lift) = .ok j ∧ xmlRead T R noHints (xmlWrite T R j) = .ok t := by
+  have hl : t.erase.lift = t := XItem.lift_erase t (C04.xml_read_representable hB e t h)
+  refine ⟨t.erase, xml_to_binary hB e t h hf, t, ?_, xml_fixpoint_full hT hB hR e t h⟩
+  rw [hl]
+  exact xml_to_json hT hB hR e t h
+
+open Kmip.Reg Kmip.Lex in
+/-- JSON → binary → XML → JSON for the generic decoder. -/
+theorem json_binary_xml_json {T : Tables} (hT : T.WF) (hB : T.Bounded) {R : Rfc3339} (hR : R.Lawful)
+    (j : JVal) (t : XItem) (h : jsonRead T R noHints j = .ok t) (hf : t.erase.Fits) :
+    ∃ b, unmarshalValue (enc t.erase) = .ok b ∧
+      ∃ x, xmlRead T R noHints (xmlWrite T R b.lift) = .ok x ∧ jsonRead T R noHints (jsonWrite T R x) = .ok t := by
+  have hl : t.erase.lift = t := XItem.lift_erase t (C04.json_read_representable hB hR j t h)
+  refine ⟨t.erase, json_to_binary hB hR j t h hf, t, ?_, json_fixpoint_full hT hB hR j t h⟩
+  rw [hl]
+  exact json_to_xml hT hB hR j t h
+
+/-- non-vacuity of the binary → text direction: the over-long big integer `inBig16` is accepted, has no
+    dates, and its tree is read back from both text encodings (regenerated registry, toy RFC 3339). -/
+example : Kmip.Lex.xmlRead C04.genTables C04.toyR Kmip.Lex.noHints
+      (Kmip.Lex.xmlWrite C04.genTables C04.toyR (Item.big 0x42000B 1).lift) = .ok (Item.big 0x42000B 1).lift :=
+  (binary_to_text C04.genTables_wf C04.toyR_lawful inBig16 _ (by decide) noncanonical_examples.2.1.1
+    (by simp [Item.DatesIn])).1
+
+/-- non-vacuity of the text → binary direction: the document in alternative lexical forms `C04.altXml` is
+    accepted; the hypothesis of `xml_to_binary` holds of it. -/
+example : ∃ t, Kmip.Lex.xmlRead C04.genTables C04.toyR Kmip.Lex.noHints C04.altXml = .ok t := by
+  have h : C04.isOk (Kmip.Lex.xmlRead C04.genTables C04.toyR Kmip.Lex.noHints C04.altXml) = true := by
+    decide +kernel
+  cases hx : Kmip.Lex.xmlRead C04.genTables C04.toyR Kmip.Lex.noHints C04.altXml with
+  | ok t => exact ⟨t, rfl⟩
+  | err _ => rw [hx] at h; cases h
+  | panic _ => rw [hx] at h; cases h
 
 /-! ### the length hypothesis cannot be dropped -/
 
